@@ -40,7 +40,7 @@ func init() {
 			"plus missing/malformed bounds; distinct = shape hash (layout, placement, n, target, bound kind, offset class, forms, outcome); non-trivial = the SP took a decision",
 		Directed:   c05Directed,
 		Run:        c05Run,
-		MustHit:    []string{"delay_to_bound", "offset=0", "offset=+1ns", "offset=-1ns", "kind=sc-nooa", "kind=cond-nb", "kind=cond-nooa", "bad_bound", "conditions_element_absent", "bounds_centuries_away", "bound_at_the_first_instant_or_centuries_off", "session_not_on_or_after_set", "skewed_clock", "non_utc_location", "redelivery_after_expiry", "foreign_namespace_namesake_with_open_bounds"},
+		MustHit:    []string{"delay_to_bound", "offset=0", "offset=+1ns", "offset=-1ns", "kind=sc-nooa", "kind=cond-nb", "kind=cond-nooa", "bad_bound", "conditions_element_absent", "bounds_centuries_away", "bound_at_the_first_instant_or_centuries_off", "session_not_on_or_after_set", "skewed_clock", "non_utc_location", "redelivery_after_expiry", "foreign_namespace_namesake_with_open_bounds", "reserved_prefix_namesake_attributes_with_open_bounds"},
 		RandomRuns: map[string]int{"quick": 8000, "thorough": 60000},
 		Assumptions: []string{
 			"RFC 3339 grey areas (leap seconds, lower-case t/z, hour 24) are not generated",
@@ -129,6 +129,9 @@ func c05Run(r *core.Run) {
 		s.Cfg.IdPIssuer = ""
 	}
 	s.Cfg.AllowMissing = t.Bool("c05.allowmissing")
+	spKey := 4
+	spCert := world.MintCert(spKey, time.Date(1990, 1, 1, 0, 0, 0, 0, time.UTC), time.Date(2200, 1, 1, 0, 0, 0, 0, time.UTC), 1)
+	s.Cfg.EncStyle, s.Cfg.EncKeyIdx, s.Cfg.EncCert = world.KeyField, spKey, spCert
 	if !s.Build() {
 		return
 	}
@@ -240,7 +243,28 @@ func c05Run(r *core.Run) {
 	// are wide open, written right after the genuine ones. They are not the SAML elements: the message may be
 	// refused as malformed, but if it is accepted the genuine bounds decide.
 	twin := 0
-	if tw := t.Int(16, "c05.twin"); bad == 0 && tw >= 1 && tw <= 3 {
+	reservedNamesakes := false
+	if tw := t.Int(16, "c05.twin"); bad == 0 && (tw == 4 || tw == 5) {
+		// attributes of the reserved xml: prefix / of XML Schema instance that are spelled like the bounds, on
+		// the genuine elements (SubjectConfirmationData admits attributes of other namespaces): they are not
+		// the SAML attributes. 4: on the subject confirmation only - a conforming message, judged strictly;
+		// 5: on Conditions too (not schema-valid there: may be refused).
+		for i, a := range m.Assertions {
+			if i == target || tw == 5 {
+				// (an attribute with the reserved xml: prefix makes the library's round-trip screen refuse the
+				// message, so that spelling only appears in the variant that may be refused)
+				a.ExtraAttrs = map[string][][2]string{"SubjectConfirmationData": {{[]string{"xsi:NotOnOrAfter", "xml:NotOnOrAfter"}[(tw-4)*((i+1)%2)], "2999-01-01T00:00:00Z"}}}
+				if tw == 5 {
+					a.ExtraAttrs["Conditions"] = [][2]string{{"xsi:NotBefore", "1900-01-01T00:00:00Z"}, {"xsi:NotOnOrAfter", "2999-01-01T00:00:00Z"}}
+				}
+			}
+		}
+		if tw == 5 {
+			twin = 5
+		}
+		reservedNamesakes = true
+		r.Fault("reserved_prefix_namesake_attributes_with_open_bounds")
+	} else if bad == 0 && tw >= 1 && tw <= 3 {
 		twin = tw
 		open := [][2]string{{"NotBefore", "1900-01-01T00:00:00Z"}, {"NotOnOrAfter", "2999-01-01T00:00:00Z"}}
 		for i, a := range m.Assertions {
@@ -254,7 +278,25 @@ func c05Run(r *core.Run) {
 		r.Fault("foreign_namespace_namesake_with_open_bounds")
 	}
 	s.ApplyPlacement(m, place, t.Chance(700, "c05.plainsig"))
+	// some assertions travel encrypted (the first only, all but the first, all): position and bounds of every
+	// assertion are what the IdP wrote, whichever way it travelled
+	if em := t.Int(8, "c05.enc"); em >= 1 && em <= 3 && place != PlaceNone {
+		for i, a := range m.Assertions {
+			if (em == 1 && i == 0) || (em == 2 && i > 0) || em == 3 {
+				a.Encrypt = world.DrawEncOpts(t, &world.Key(spKey).RSA.PublicKey, spCert.DER)
+				if a.Sign != nil {
+					a.Sign.ExclusiveOnly()
+				}
+			}
+		}
+		r.Fault("some_assertions_encrypted")
+	}
 	lay := world.DrawLayout(t)
+	if reservedNamesakes {
+		// (attributes of two foreign namespaces on one element are something the library's round-trip screen
+		// refuses: the vendor extras stay out of these messages)
+		lay.Extras = false
+	}
 	xml, err := s.IdP.Issue(m, lay, r.Sim.Now())
 	if err != nil {
 		r.HarnessError("issue: %v", err)
